@@ -38,3 +38,15 @@ add("C19",
     "property-based testing (proptest): observational equality across conversion routes",
     "Generated globs x routes (Display+new, Clone, into_owned, FromStr, TryFrom; any of text/compiled/nested/Result/owned) x paths x capture indices: every query, match, capture (text and offsets), span and partition must be identical.",
     "Trusted: Debug/Display renderings as the comparison key; the partition-display route is C08's business.")
+add("C05",
+    "property-based testing / fuzzing in crash-isolating worker processes (proptest-generated strings through every public operation)",
+    "Generated strings (arbitrary UTF-8, meta-dense, mutated ASTs, extreme repetition bounds, nesting ladders up to 20000 levels) are pushed through every public build/query/match/partition/combinator/walk-construction operation inside a worker process; panics are caught and reported with message and location, aborts (stack overflow) are observed as worker deaths; compile errors are only accepted for programs above a calibrated size.",
+    "Trusted: the worker protocol (one case at a time, so the killing input is known exactly); a watchdog or address-space kill is inconclusive (exit 2), never a violation.")
+add("C17",
+    "property-based testing (proptest): every reported span must slice the expression; capture spans compared with the renderer's token spans",
+    "Failing inputs with multi-byte characters adjacent to the fault and faults at the end of input, rule-violating ASTs, meta-dense strings; building inputs with flag groups in front of capturing tokens and their partitions. The documented slicing idiom is executed under catch_unwind.",
+    "Trusted: the renderer's byte spans. A capture span may or may not include the flag groups directly in front of its sub-expression.")
+add("C18",
+    "property-based testing (proptest) + exhaustive ASCII / sampled Unicode character sweep: escape round-trip",
+    "Strings brought into the stated domain by construction x round-trip (builds, invariant text == s, matches s, rejects mutants, no captures); every ASCII character and sampled scalar values checked against the documented meta-character set.",
+    "Trusted: the documented meta set `?*$:<>()[]{},`; the sweep is exhaustive only for ASCII.")
